@@ -95,6 +95,8 @@ type Rec struct {
 	failFilter func(e *Event) bool
 	failErr    error
 
+	lastProbe Event
+
 	nextConn int32
 	nextTx   int32
 	openTx   int32
@@ -165,6 +167,14 @@ func (r *Rec) OpenTx() int    { return int(atomic.LoadInt32(&r.openTx)) }
 func (r *Rec) OpenStmts() int { return int(atomic.LoadInt32(&r.openStmt)) }
 func (r *Rec) OpenConns() int { return int(atomic.LoadInt32(&r.openConn)) }
 
+// ProbeMarker marks statements a harness hook executes only to learn which connection /
+// transaction / context the *gorm.DB it was handed uses. They are executed, recorded with
+// K="probe", never counted for fault injection.
+const ProbeMarker = "/*probe*/"
+
+// LastProbe returns the last probe event seen.
+func (r *Rec) LastProbe() Event { r.mu.Lock(); defer r.mu.Unlock(); return r.lastProbe }
+
 // pre registers the event and decides about a fault. Returns the event index (or -1) and the
 // error to inject (nil = proceed).
 func (r *Rec) pre(e *Event) (int, error) {
@@ -175,6 +185,20 @@ func (r *Rec) pre(e *Event) (int, error) {
 	defer r.mu.Unlock()
 	r.seq++
 	e.Seq = r.seq
+	if strings.Contains(e.SQL, ProbeMarker) {
+		if e.K == "prepare" || e.K == "stmt_close" {
+			e.K = "probe_aux"
+			e.Res = "ok"
+			return -1, nil
+		}
+		e.K = "probe"
+		e.Res = "ok"
+		r.lastProbe = *e
+		if r.record {
+			r.events = append(r.events, *e)
+		}
+		return -1, nil
+	}
 	var inj error
 	f := r.failFilter
 	if f == nil {
